@@ -10,7 +10,7 @@ harness/C14/harness.cpp compiled from the working tree:
   mm   : real _mm_malloc back end, ASan+UBSan
   tbb  : real TBB scalable allocator
 On the real back ends addresses are abstracted (aligned / null) before comparing."""
-import os, re
+import os, re, time, traceback
 from concurrent.futures import ThreadPoolExecutor
 import vlib
 
@@ -28,8 +28,29 @@ ASAN_ENV = {"ASAN_OPTIONS": vlib.Ctx.SAN_ENV["ASAN_OPTIONS"] + ":max_allocation_
 
 
 # ------------------------------------------------------------------ running
+FALLBACK_LINE = "unsupported-in-fallback-build"
+
+
+def remaining(ctx):
+    """seconds left of the wall-clock budget of the whole check (quick: no tree may push it beyond ~4 min)"""
+    return max(0.0, getattr(ctx, "deadline", ctx.t0 + 3600) - time.time())
+
+
+def stage(ctx, name, fn, default=None):
+    """run one stage of the check; an exception is recorded (stage + last traceback line) and the check goes on"""
+    try:
+        return fn()
+    except Exception as ex:
+        tb = traceback.format_exc().strip().splitlines()
+        where = next((l.strip() for l in reversed(tb) if l.strip().startswith("File ")), "")
+        ctx.broken.append("stage '%s' raised %s: %s (%s)" % (name, type(ex).__name__, str(ex)[:200], where[:160]))
+        ctx.log("stage '%s' failed: %s" % (name, tb[-1][:300]))
+        return default
+
+
 def run_guarded(ctx, exe, stdin, tmo, env=None):
     """run under coreutils timeout (SIGKILL) so that the output printed before a hang is kept"""
+    tmo = max(2, int(min(tmo, remaining(ctx) + 2)))
     rc, out, err = ctx.run_exe("timeout", ["-s", "KILL", str(tmo), exe], stdin=stdin, timeout=tmo + 30, env=env)
     return rc, out, err, rc in (137, -9, 124)
 
@@ -40,7 +61,7 @@ def run_cases(ctx, exe, cases, nchunks=4, timeout=None, env=None):
     n = len(cases)
     if n == 0:
         return [], []
-    timeout = timeout or ctx.pick(90, 900)
+    timeout = min(timeout or ctx.pick(90, 900), max(10, int(remaining(ctx) / 2)))
     size = max(1, (n + nchunks - 1) // nchunks)
     chunks = [(s, cases[s:s + size]) for s in range(0, n, size)]
 
@@ -485,7 +506,7 @@ def inventory(ctx, decls, runs, thm):
     per_kind = {}
     for label, exe, exact, cases, lines, expect, crashes in runs:
         for c, l in zip(cases, lines):
-            if not (l.startswith("<crash") or l == "<not run>"):
+            if not (l.startswith("<crash") or l == "<not run>" or l == FALLBACK_LINE):
                 per_kind[c[0]] = per_kind.get(c[0], 0) + 1
     inv = {}
     for k in sorted(decls or {}):
@@ -506,11 +527,57 @@ def inventory(ctx, decls, runs, thm):
     ctx.cov["inventory_cases_per_kind"] = per_kind
 
 
+# ------------------------------------------------------------------ harness builds (robust)
+REPO_SRC_WIDE = REPO_SRC + ["rkcommon/os/library.cpp", "rkcommon/common.cpp", "rkcommon/os/FileName.cpp"]
+
+
+def first_error(ctx, nlog):
+    txt = "\n".join(ctx.log_lines[nlog:])
+    m = re.search(r"^.*(?:error|undefined reference)[^\n]*", txt, re.M)
+    return (m.group(0).strip() if m else txt.strip().splitlines()[-1] if txt.strip() else "?")[:240]
+
+
+def build_harness(ctx, kw):
+    """one harness build: the full harness; if it does not build against the tree, once more with a wider list of repo
+    sources (a changed header may need more of the library); then the reduced build -DC14_FALLBACK (no case A / T / vector<Any>)
+    so that the core cases still run on the real code.  Returns (exe or None, is_fallback)."""
+    nlog, nbroken = len(ctx.log_lines), len(ctx.broken)
+    exe = ctx.cxx(**kw)
+    if exe:
+        return exe, False
+    err1 = first_error(ctx, nlog)
+    del ctx.broken[nbroken:]
+    attempts = [("wider repo source list", dict(kw, repo_sources=[x for x in REPO_SRC_WIDE if os.path.exists(os.path.join(ctx.repo, x))],
+                                                libs=list(kw.get("libs", [])) + ["-ldl"]), False),
+                ("reduced build -DC14_FALLBACK", dict(kw, flags=list(kw.get("flags", [])) + ["-DC14_FALLBACK"],
+                                                      repo_sources=["rkcommon/memory/malloc.cpp"]), True)]
+    for what, kw2, fb in attempts:
+        n2, b2 = len(ctx.log_lines), len(ctx.broken)
+        exe = ctx.cxx(**kw2)
+        del ctx.broken[b2:]
+        if exe:
+            ctx.broken.append("harness build %s does not build against this tree (%s); continued with the %s" % (kw["out"], err1, what))
+            return exe, fb
+    ctx.broken.append("harness build %s does not build against this tree, also not as reduced build (%s)" % (kw["out"], err1))
+    return None, False
+
+
 # ------------------------------------------------------------------ the check
 def run(ctx):
-    decls = closed_list(ctx)
-    regenerate(ctx)
-    thm = ctx.coq_check(("Properties.v", "PropertiesGen.v"))
+    """never raises: every stage is isolated, bin/vcheck always reaches ctx.finish() and writes the evidence"""
+    ctx.deadline = ctx.t0 + ctx.pick(225, 3300)
+    try:
+        _run(ctx)
+    except Exception as ex:
+        tb = traceback.format_exc().strip().splitlines()
+        ctx.broken.append("props/C14/check.py internal error %s: %s (%s)" % (type(ex).__name__, str(ex)[:200], tb[-3].strip()[:160] if len(tb) > 2 else ""))
+        ctx.log("internal error:\n" + "\n".join(tb[-6:]))
+
+
+def _run(ctx):
+    decls = stage(ctx, "declaration scan / inventory table", lambda: closed_list(ctx), {}) or {}
+    stage(ctx, "regenerate gen/GenAlloc.v (c14gen + cxx2coq)", lambda: regenerate(ctx))
+    thm = stage(ctx, "Coq build", lambda: ctx.coq_check(("Properties.v", "PropertiesGen.v")), {}) or {}
     gen_broken = sorted(n for n, ok in thm.items() if n.startswith("gen_") and not ok)
     ctx.cov["regenerated_obligations_broken"] = gen_broken
     if gen_broken:
@@ -526,22 +593,28 @@ def run(ctx):
                 pass
         ctx.cov["regenerated_first_failing_lemma"] = first
         ctx.log("regenerated (Tie A) obligations no longer check; first failing lemma: %s" % first)
-    model = ctx.extract(snippets=["conv_N.ml", "conv_Z.ml"])
+    model_vo = os.path.join(ctx.coqdir, "Model.vo")
+    model = None
+    if os.path.exists(model_vo) and os.path.getmtime(model_vo) >= os.path.getmtime(os.path.join(ctx.coqdir, "Model.v")):
+        model = stage(ctx, "extraction + OCaml model build", lambda: ctx.extract(snippets=["conv_N.ml", "conv_Z.ml"]))
+    else:
+        ctx.broken.append("Model.v does not build: no extracted model (the harness cases are judged by the property oracle alone)")
     tbbflags = ["-DRKCOMMON_TASKING_TBB"]
-    exes = ctx.cxx_many([
-        dict(sources=["harness.cpp"], out="h_spy", repo_sources=REPO_SRC, sanitize="ubsan", flags=tbbflags + ["-DC14_SPY"]),
-        dict(sources=["harness.cpp"], out="h_mm", repo_sources=REPO_SRC, sanitize="asan"),
-        dict(sources=["harness.cpp"], out="h_tbb", repo_sources=REPO_SRC, sanitize="ubsan", flags=tbbflags, libs=["-ltbbmalloc"]),
-    ])
-    if not model:
-        return
+    jobs = [dict(sources=["harness.cpp"], out="h_spy", repo_sources=REPO_SRC, sanitize="ubsan", flags=tbbflags + ["-DC14_SPY"]),
+            dict(sources=["harness.cpp"], out="h_mm", repo_sources=REPO_SRC, sanitize="asan"),
+            dict(sources=["harness.cpp"], out="h_tbb", repo_sources=REPO_SRC, sanitize="ubsan", flags=tbbflags, libs=["-ltbbmalloc"])]
+    from concurrent.futures import ThreadPoolExecutor as _TPE
+    with _TPE(max_workers=3) as ex:
+        built = list(ex.map(lambda kw: stage(ctx, "harness build " + kw["out"], lambda: build_harness(ctx, kw), (None, False)), jobs))
+    exes = [b[0] for b in built]
     spy, mm, tbb = exes
+    ctx.cov["harness_builds"] = {j["out"]: ("missing" if not b[0] else "reduced (C14_FALLBACK)" if b[1] else "full") for j, b in zip(jobs, built)}
     if not all(exes):
-        # a build that fails is recorded as broken by ctx.cxx; the cases still run on the builds that exist, so
-        # that a concrete failing input is searched for before falling back to no-failing-input-found
         ctx.log("builds missing: %s - continuing with the others" % ", ".join(n for n, e in zip(("spy", "mm", "tbb"), exes) if not e))
-        if not any(exes):
-            return
+    if not any(exes):
+        return
+    if not model:
+        ctx.log("no model: model-vs-code comparison skipped, every harness case is judged by the independent property oracle")
     r = ctx.rng("cases")
     corpus = []
     cp = os.path.join(ctx.verif, "corpus", "C14", "cases.txt")
@@ -574,36 +647,57 @@ def run(ctx):
     real_ok = lambda c: not (c[0] in "HVW" and c.split()[2 if c[0] in "VW" else 1] != "-1")
     ctx.log("cases: corpus %d arith %d heap %d vec %d+%d (+%d real only)" % (len(corpus), len(arith), len(heap), len(vec_small), len(vec_fail), len(vec_big)))
 
-    mlines, mcr = run_cases(ctx, model, modelled)
-    ctx.log("model done")
-    if mcr or len(mlines) != len(modelled):
-        ctx.broken.append("model driver failed on case %r" % (modelled[mcr[0][0]] if mcr else "?"))
-        return
+    mlines = None
+    if model:
+        def run_model():
+            ml, mcr = run_cases(ctx, model, modelled)
+            if mcr or len(ml) != len(modelled):
+                ctx.broken.append("model driver failed on case %r" % (modelled[mcr[0][0]] if mcr else "?"))
+                return None
+            return ml
+        mlines = stage(ctx, "model run", run_model)
+        ctx.log("model done")
+    have_model = mlines is not None
+    if not have_model:
+        mlines = [None] * len(modelled)
     runs = []     # (label, exe, exact, cases, lines, expected-or-None)
     if spy:
-        lines, cr = run_cases(ctx, spy, modelled)
+        def run_spy():
+            lines, cr = run_cases(ctx, spy, modelled)
+            runs.append(("spy back end", spy, True, modelled, lines, mlines, cr))
+        stage(ctx, "spy run", run_spy)
         ctx.log("spy done")
-        runs.append(("spy back end", spy, True, modelled, lines, mlines, cr))
     realcases = [c for c in modelled if real_ok(c) and c[0] != "S"]
-    rexp = [abstract(c, mlines[i]) for i, c in enumerate(modelled) if real_ok(c) and c[0] != "S"]
+
+    def safe_abstract(c, ml):
+        if ml is None:
+            return None
+        try:
+            return abstract(c, ml)
+        except Exception:
+            return None
+    rexp = [safe_abstract(c, mlines[i]) for i, c in enumerate(modelled) if real_ok(c) and c[0] != "S"]
     for label, exe in (("_mm_malloc back end (ASan)", mm), ("TBB scalable allocator back end", tbb)):
         if not exe:
             continue
-        lines, cr = run_cases(ctx, exe, realcases + vec_big, env=ASAN_ENV)
+        def run_real(label=label, exe=exe):
+            lines, cr = run_cases(ctx, exe, realcases + vec_big, env=ASAN_ENV)
+            runs.append((label, exe, False, realcases + vec_big, lines, rexp + [None] * len(vec_big), cr))
+        stage(ctx, "run on the " + label, run_real)
         ctx.log(label + " done")
-        runs.append((label, exe, False, realcases + vec_big, lines, rexp + [None] * len(vec_big), cr))
     ctx.count(sum(len(x[3]) for x in runs))
 
     # coverage bookkeeping
     hist, kinds = {}, {}
     for c, ml in zip(modelled, mlines):
+        ml = ml or ""
         kinds[c[0]] = kinds.get(c[0], 0) + 1
         if c[0] in "HVW":
             for tok in c.split()[2:]:
                 key = c[0] + ":" + tok.split(":")[0]
                 hist[key] = hist.get(key, 0) + 1
         if c[0] == "G":
-            w = ml.split()[0].split("=")[0]
+            w = (ml.split() or ["?"])[0].split("=")[0]
             hist["G:" + w] = hist.get("G:" + w, 0) + 1
             if int(c.split()[3]) > 1: ctx.nontriv(c)
         elif c[0] in "VW":
@@ -640,11 +734,12 @@ def run(ctx):
                 "pattern on the real back ends); every case on 3 builds (spy / _mm_malloc+ASan / TBB).  non-trivial = G,I,P: operand > 1; "
                 "H: contains a free; V: the data pointer took >= 3 distinct values (or the long real-only histories)")
     for c in (arith[40], heap[0], vec_small[0], vec_fail[0]):
-        ctx.sample({"case": c[:400], "model": mlines[modelled.index(c)][:400]})
+        ctx.sample({"case": c[:400], "model": (mlines[modelled.index(c)] or "(no model in this run)")[:400]})
 
     # ---------------------------------------------------------------- judge
-    nmis = 0
-    for label, exe, exact, cases, lines, expect, crashes in runs:
+    nmis = [0]
+
+    def judge(label, exe, exact, cases, lines, expect, crashes):
         reported = 0
         for (idx, rc, err) in crashes:
             if reported >= 2: break
@@ -655,7 +750,9 @@ def run(ctx):
                 head = case.split()[:3 if case[0] in "VW" else 2]
                 hang = isinstance(rc, str)
                 def dies(ops, head=head, exe=exe, hang=hang):
-                    rc2, out, err2, h2 = run_guarded(ctx, exe, " ".join(head + ops) + "\n", 5 if hang else 60)
+                    if remaining(ctx) < 20:        # out of budget: stop shrinking, report what we have
+                        return False
+                    rc2, out, err2, h2 = run_guarded(ctx, exe, " ".join(head + ops) + "\n", 5 if hang else 30)
                     return rc2 != 0
                 small = " ".join(head + vlib.shrink_list(case.split()[len(head):], dies, max_rounds=20 if hang else 120))
             ctx.violation("harness on the %s died or hung (rc=%s): sanitizer report / abort / allocator corruption in the real code" % (label, rc),
@@ -664,7 +761,7 @@ def run(ctx):
         seen_kind = set()
         for i, c in enumerate(cases):
             il = lines[i] if i < len(lines) else "<no output>"
-            if il.startswith("<crash") or il == "<not run>":
+            if il.startswith("<crash") or il == "<not run>" or il == FALLBACK_LINE:
                 continue
             verdict = oracle(c, il, exact)
             exp = expect[i]
@@ -674,7 +771,7 @@ def run(ctx):
                 got = "<unparsable: %s> %s" % (ex, il)
             if verdict is None and (exp is None or got == exp):
                 continue
-            nmis += 1
+            nmis[0] += 1
             if (c[0], verdict is None) in seen_kind:
                 continue
             seen_kind.add((c[0], verdict is None))
@@ -684,6 +781,8 @@ def run(ctx):
                     head = c.split()[:3 if c[0] in "VW" else 2]
                     def fails(ops, head=head, exe=exe, exact=exact):
                         cc = " ".join(head + ops)
+                        if remaining(ctx) < 20:
+                            return False
                         rc2, out, err2, h2 = run_guarded(ctx, exe, cc + "\n", 30)
                         return rc2 != 0 or oracle(cc, out.strip("\n"), exact) is not None
                     ops = vlib.shrink_list(c.split()[len(head):], fails, max_rounds=150)
@@ -697,8 +796,11 @@ def run(ctx):
             else:
                 ctx.broken.append("correspondence C14 model vs %s on case %r: impl=%r model=%r (the implementation's output satisfies the property oracle)"
                                   % (label, c[:300], got[:300], (exp or "")[:300]))
-    ctx.cov["mismatches"] = nmis
-    inventory(ctx, decls, runs, thm)
+    for r_ in runs:
+        stage(ctx, "judging the " + r_[0], lambda r_=r_: judge(*r_))
+    ctx.cov["mismatches"] = nmis[0]
+    ctx.cov["model_available"] = have_model
+    stage(ctx, "inventory counts", lambda: inventory(ctx, decls, runs, thm))
     ctx.trusted += ["translator tools/cxx2coq/cxx2coq.py + statement walker tools/c14gen/c14gen.py (clang++ -std=c++11 JSON AST of tools/cxx2coq/inst/alloc.cpp -> "
                     "Gallina over Common.CxxSem.interp; the machine reading MZ wraps every operation to its C type); allocate() is generated as a statement "
                     "list (C14.GenSem.astmt) whose reading [run] is hand-written; a pointer is read as its address",
@@ -713,4 +815,4 @@ def run(ctx):
                         "ALIGN_PTR with alignment exactly 2^63 is left out (the macro negates (ssize_t)alignment: signed overflow)",
                         "element values are stored whole at the address of their first byte in the model's memory"]
     if ctx.thorough():
-        ctx.coq_thorough_chk(["C14.Properties"])
+        stage(ctx, "coqchk", lambda: ctx.coq_thorough_chk(["C14.Properties"]))
